@@ -233,6 +233,28 @@ def run_c18(cx):
                     binary_roundtrip(cx, shape, op, args, rec, tpc, "transpiled-")
 
 
+def opcode_table_check(cx, scratch):
+    """supporting step for C18 (a finite table, evaluated natively and exhaustively - NOT a solver obligation): every opcode's
+    mnemonic maps back to the same opcode, and mnemonics are non-empty and free of white space (the text form relies on it)"""
+    nat = N.NativeBytecode(scratch)
+    res = nat.eval([("t0", "T:opcodes", [("Int", 0)])], False)["t0"]
+    bad = []
+    entries = res[2].split(",") if len(res) > 2 and res[2] else []
+    for e in entries:
+        left, back = e.split(">")
+        oid, name = left.split("=", 1)
+        if back != oid:
+            bad.append("opcode %s is written as `%s`, which the transpiler maps to opcode %s" % (oid, name, back))
+        if not name or "<SP>" in name or any(ch.isspace() for ch in name):
+            bad.append("mnemonic of opcode %s is empty or contains white space" % oid)
+    cx.opcode_table = {"entries": len(entries), "mismatches": bad}
+    for b in bad:
+        cx.findings.append({"property": "C18", "fn": "opcode-table", "arm": b.split(" is ")[0], "class": "mnemonic-roundtrip", "profile": "any",
+                            "opcode": 0, "args": [], "detail": b, "native": ["table"], "confirmed": True, "table": True})
+    if len(entries) < 10:
+        raise V.Inconclusive("opcode table not read")
+
+
 def main():
     ap = argparse.ArgumentParser()
     ap.add_argument("prop", choices=["C04", "C18"])
@@ -248,6 +270,8 @@ def main():
         cx = Ctx(a.prop, a.tier, scratch)
         (run_c04 if a.prop == "C04" else run_c18)(cx)
         confirm(cx, scratch)
+        if a.prop == "C18":
+            opcode_table_check(cx, scratch)
         return report(a, cx, t0)
     except (V.Inconclusive, sym.Inconclusive, mir.MirError) as e:
         log("INCONCLUSIVE:", e)
@@ -262,6 +286,7 @@ def hexargs(args):
 def confirm(cx, scratch):
     """replay every witness on the real writer / transpiler / loader tokenizer (native harness in the compiler crate, which
     depends on bytecode; the transpiler's private re-encoder is compiled in from its source file)"""
+    cx.findings = [f for f in cx.findings if not f.get("table")] if hasattr(cx, "findings") else cx.findings
     if not cx.findings:
         return
     natc = N.NativeCompiler(scratch)
@@ -318,7 +343,8 @@ def report(a, cx, t0):
         if k in shown:
             continue
         shown.add(k)
-        p = V.save_replay(prop, ("%s_%s_%s" % k).replace("=", "").replace(",", "-"), f)
+        import re as _re
+        p = V.save_replay(prop, _re.sub(r"[^A-Za-z0-9_-]+", "_", ("%s_%s_%s" % k).replace("=", "").replace(",", "-")), f)
         print("VIOLATION property=%s replay=%s" % (prop, p))
         print("   %s [%s] %s: %s; opcode %d, arguments %r -> real code: %s" % (f["fn"], f["arm"], f["class"], f["detail"], f["opcode"],
               ["".join(map(chr, x)) for x in f["args"]], f.get("native")))
@@ -341,6 +367,7 @@ def report(a, cx, t0):
                          ("; line framing of transpile_file (read_line up to LF, split_once(' '), trim_start) is replicated; the mnemonic is an opaque white-space-free token" if prop == "C18" else "")],
         "functions_encoded": cx.functions(),
         "paths_explored": cx.paths,
+        "supporting_step_opcode_table (finite, native, not a solver obligation)": getattr(cx, "opcode_table", None),
         "bounds": "argument-length vectors %s; characters: ANY Unicode scalar value except NUL (symbolic code points, not an alphabet); opcode symbolic in 1..=62" % (sh,),
         "solver_time_s": round(cx.qs.solver_s, 2),
         "samples": cx.qs.samples[:6] + [{k: v for k, v in f.items()} for f in (new + [f for _, f in listed])[:4]],
